@@ -346,7 +346,7 @@ struct Run {
       if (!check_structure(c, *cx, M, f)) { c.violation(f.check, opsig + "," + f.sig, f.detail); return false; }
     }
     Fail f;
-    if (!check_local(c, *cx, M, f)) { c.violation(f.check, opsig + "," + f.sig, f.detail); return false; }
+    if (!check_local(c, *cx, M, f)) { c.violation(f.check, f.sig, "after " + opsig + ": " + f.detail); return false; }  // a query on the current state: the signature does not depend on the last operation
     c.count("steps");
     size_t nb = cx->num_blockers();
     peak_blockers = std::max(peak_blockers, nb);
@@ -548,13 +548,17 @@ struct Run {
     }
     if (op < 88) {
       // contract an edge of the complex
-      std::vector<std::pair<int, int>> cand, inb;
+      // candidate edges: all / inside a blocker (link condition fails) / with a blocker at an endpoint but none through the edge
+      std::vector<std::pair<int, int>> cand, inb, nearb;
       for (size_t i = 0; i < av.size(); ++i) for (size_t j = i + 1; j < av.size(); ++j) if (M.in[bit(av[i]) | bit(av[j])]) {
         cand.emplace_back(av[i], av[j]);
-        for (Mask b : bl) if ((b & bit(av[i])) && (b & bit(av[j]))) { inb.emplace_back(av[i], av[j]); break; }
+        bool thr = false, tch = false;
+        for (Mask b : bl) { if ((b & bit(av[i])) && (b & bit(av[j]))) thr = true; if ((b & bit(av[i])) || (b & bit(av[j]))) tch = true; }
+        if (thr) inb.emplace_back(av[i], av[j]); else if (tch) nearb.emplace_back(av[i], av[j]);
       }
       if (cand.empty()) { c.count("skip.contract_no_edge"); return true; }
-      auto e = (!inb.empty() && r.chance(1, 2)) ? r.pick(inb) : r.pick(cand);
+      unsigned pickmode = (unsigned)r.below(10);
+      auto e = (!inb.empty() && pickmode < 4) ? r.pick(inb) : (!nearb.empty() && pickmode < 7) ? r.pick(nearb) : r.pick(cand);
       if (r.chance(1, 2)) std::swap(e.first, e.second);
       int a = e.first, b = e.second;
       bool lc = M.link_condition(a, b);
